@@ -85,8 +85,9 @@ PROPS = {
     },
     "C02": {
         "pkg": "internal/config",
-        "files": ["shared/zz_verif_doc_test.go", "config/zz_verif_common_test.go", "config/zz_verif_C02_test.go"],
+        "files": ["shared/zz_verif_doc_test.go", "config/zz_verif_common_test.go", "config/zz_verif_C02_test.go", "config/zz_verif_fuzz_test.go"],
         "run": "TestVerif_C02",
+        "fuzz": [{"target": "FuzzVerif_C02", "seconds": 180}],
         "level": "exploration",
         "quick": {"shards": 8},
         "thorough": {"shards": 16, "timeout_s": 5400},
@@ -99,7 +100,9 @@ PROPS = {
                  "judged for totality. Oracle: three-valued reference validator written from the statement and reference.toml "
                  "(accept with the exact expected Config / reject / unspecified). Non-trivial: at least one perturbed or boundary "
                  "key, or an interaction (explicit max with explicit min/default_lifetime, multi-name expansion, deprecated stanza); "
-                 "for byte strings: non-empty. Distinct: FNV-64 of the canonical JSON case."),
+                 "for byte strings: non-empty. Distinct: FNV-64 of the canonical JSON case. Thorough tier only: 3 minutes of native coverage-guided "
+                 "fuzzing (go test -fuzz, all cores) of Parse for totality, seeded with the minimal and reference configurations and hostile "
+                 "constants; its executions are added to `evaluations` and reported under native_fuzzing."),
         "assumptions": [STAGED, "debug addresses are IP literals or localhost (Parse resolves the address; the sandbox has no resolver)",
                         "cases listed in DESIGN.md 5.2 are counted as unspecified and not judged"],
         "technique": "rapid property-based testing + bounded-exhaustive boundary sweep against a three-valued reference validator; byte-level totality",
@@ -262,9 +265,12 @@ PROPS = {
         "level_note": "Trusts testing/synctest and the in-memory Conn's scripted latencies.",
     },
     "C09": {
-        "pkg": "internal/corerad",
-        "files": ["corerad/zz_verif_C12_test.go", "corerad/zz_verif_sim_test.go", "corerad/zz_verif_adv_test.go", "corerad/zz_verif_mon_test.go", "corerad/zz_verif_C06_test.go", "corerad/zz_verif_C07_test.go", "corerad/zz_verif_C09_test.go"],
-        "run": "TestVerif_C09",
+        "parts": [
+            {"pkg": "internal/corerad", "run": "TestVerif_C09",
+             "files": ["corerad/zz_verif_C12_test.go", "corerad/zz_verif_sim_test.go", "corerad/zz_verif_adv_test.go", "corerad/zz_verif_mon_test.go", "corerad/zz_verif_C06_test.go", "corerad/zz_verif_C07_test.go", "corerad/zz_verif_C09_test.go", "corerad/zz_verif_C09long_test.go"]},
+            {"pkg": "internal/corerad", "run": "TestVerif_C09long",
+             "files": ["corerad/zz_verif_C12_test.go", "corerad/zz_verif_sim_test.go", "corerad/zz_verif_adv_test.go", "corerad/zz_verif_mon_test.go", "corerad/zz_verif_C06_test.go", "corerad/zz_verif_C07_test.go", "corerad/zz_verif_C09_test.go", "corerad/zz_verif_C09long_test.go"]},
+        ],
         "level": "exploration",
         "bubble": True,
         "quick": {"shards": 8},
@@ -276,8 +282,10 @@ PROPS = {
                  "same sequence with the invalid messages deleted (same transmissions per destination and content, same inconsistency reports and hook "
                  "calls, same monitor callbacks and gauges), the C07 matching rules for the valid solicitations, messages_received_invalid_total by "
                  "type = number of invalid messages, Run still running and no re-dial. Non-trivial: an invalid message followed by a valid one; runs "
-                 ">= 5 (the receive retry budget) are a tracked class. Distinct: FNV-64 of the canonical JSON case."),
-        "assumptions": [STAGED, BUBBLE, FAKES],
+                 ">= 5 (the receive retry budget) are a tracked class. A second process pushes runs of 300 000 (quick) / 3 000 000 (thorough) consecutive "
+                 "invalid messages through a Monitor and an Advertiser with the goroutine stack limited to 32 MiB, then one valid message that must be "
+                 "served (handling a message must not accumulate stack or budget). Distinct: FNV-64 of the canonical JSON case."),
+        "assumptions": [STAGED, BUBBLE, FAKES, "the long-run part limits the Go stack to 32 MiB (runtime/debug.SetMaxStack): stack use per ignored message must be O(1)"],
         "technique": "rapid property-based testing + exhaustive single-message table; differential (metamorphic: delete invalid messages) on virtual time",
         "level_text": "Differential runs of generated sequences against their filtered versions; counterexample search, not proof.",
         "level_note": "Trusts testing/synctest and the in-memory Conn; message bodies are built as values (the decoder path is covered by C18's byte-level part).",
